@@ -40,6 +40,12 @@ pub struct Scenario {
     pub storage_latency_ms: u64,
     /// a keyspace created beforehand by a single task (control: must never matter)
     pub precreate: bool,
+    /// hours that go by after the callers (the group's periodic purge pass runs on the keyspace)
+    #[serde(default)]
+    pub idle_hours: u8,
+    /// the first purge pass runs into a remove_tombstones failure
+    #[serde(default)]
+    pub purge_fails: bool,
 }
 
 pub struct C18;
@@ -97,7 +103,7 @@ impl Check for C18 {
                 let ks = "ks0".to_string();
                 for i in 0..rng.gen_range(3..10u64) {
                     let w = ids[rng.gen_range(0..ids.len())];
-                    sc.events.push(crate::e2::c01::Ev::Op { t: t + 150 + i * rng.gen_range(20..400), node: w, spec: crate::e2::OpSpec { kind: "put".into(), ks: ks.clone(), ids: vec![rng.gen_range(0..6)], level: "None".into() } });
+                    sc.events.push(crate::e2::c01::Ev::Op { t: t + 150 + i * rng.gen_range(20..400), node: w, spec: crate::e2::OpSpec { kind: "put".into(), ks: ks.clone(), ids: vec![rng.gen_range(0..6)], level: "None".into(), dup: false } });
                 }
                 sc.events.sort_by_key(|e| e.t());
             }
@@ -124,6 +130,8 @@ impl Check for C18 {
             jitter_ms,
             storage_latency_ms: if rng.gen_bool(0.3) { rng.gen_range(1..4) } else { 0 },
             precreate: rng.gen_bool(0.1),
+            idle_hours: if rng.gen_bool(0.15) { rng.gen_range(1..=2) } else { 0 },
+            purge_fails: rng.gen_bool(0.6),
         })
         .unwrap()
     }
@@ -244,6 +252,15 @@ impl Check for C18 {
             }
             let mut results = results.borrow().clone();
             results.sort_by_key(|r| r.0);
+            // hours go by: the periodic purge pass visits the keyspace, once into a storage failure
+            for h in 0..sc.idle_hours {
+                if sc.purge_fails && h == 0 {
+                    let mut st = node.storage.st.lock();
+                    let next = st.mutating_calls + 1;
+                    st.faults.insert(next, crate::e1::FaultKind::FailAfter(0));
+                }
+                tokio::time::sleep(Duration::from_secs(3_660)).await;
+            }
 
             let mut named = std::collections::BTreeSet::new();
             named.insert(sc.name.clone());
